@@ -35,7 +35,7 @@ STUB = ["choice of the running scenario thread (baton scheduler, line events in 
 ASSUMPTIONS = ["population changes in the two round hooks, plus deletions from inside act of the acting agent itself or of an agent created before it (both have already acted), and creations from inside act: the newcomer is a live agent and is expected to handle and act last in that very step, as the pinned tree does",
                "harness subclasses (models/abm_agents.py) run atomically between pre-emption points"]
 FAULT_KINDS = ["preemption", "population_change_in_hook", "agent_deleted_inside_act"]
-PROBES = ["session_over_abm_managers", "session_over_several_abm_managers", "progress_widget", "model_run_again_with_other_run_spec", "deletion_inside_act", "creation_inside_act", "zero_stop_time", "negative_start", "decimal_dt", "empty_population", "collect_off", "threads_interleaved", "driven_steps"]
+PROBES = ["unhandled_event_in_front_of_a_handled_one", "session_over_abm_managers", "session_over_several_abm_managers", "progress_widget", "model_run_again_with_other_run_spec", "deletion_inside_act", "creation_inside_act", "zero_stop_time", "negative_start", "decimal_dt", "empty_population", "collect_off", "threads_interleaved", "driven_steps"]
 EXHAUSTIVE = {"quick": False, "thorough": False}
 
 
@@ -111,6 +111,26 @@ def _cmp(res, name, got, exp, extra):
     d.update(extra)
     res.violate("C12.call-log-differs", d)
     return False
+
+
+def _pending_events_clause(res, m, dt, name):
+    """"every live agent handles its pending events" in the step: an event that is handled at all is handled in the step after
+    it was sent (a delayed one ceil(delay/dt) steps later) - not a step later because something unhandled sat in front of it"""
+    import math
+    when = {}
+    for (k, aid, uid, st) in m.world.handled:
+        when.setdefault(uid, k)
+    for (ks, uid, to, delay) in m.world.sent:
+        if uid not in when:
+            continue
+        wait = 0 if delay is None else int(math.ceil(round(delay / dt, 9)))
+        if when[uid] != ks + 1 + wait:
+            res.violate("C12.pending-event-not-handled-in-its-step", {"scenario": name, "uid": uid, "sent_in_step": ks, "delay": delay, "dt": dt,
+                                                                    "handled_in_step": when[uid], "expected_step": ks + 1 + wait})
+            return False
+    if any(u % 1000 == 999 for (_, u, _, _) in m.world.sent):
+        res.probe("unhandled_event_in_front_of_a_handled_one")
+    return True
 
 
 def _session_world(scs, names):
@@ -273,6 +293,8 @@ def execute(case):
             want = sorted({c[1] for c in exp if c[0] == "collect"})
             if keys != want:
                 res.violate("C12.statistics-times", {"got": keys[:6], "expected": want[:6], "got_len": len(keys), "expected_len": len(want)})
+            if not res.violations and mode in ("run", "scheduler_steps"):
+                _pending_events_clause(res, m, sc["dt"], "direct")
         log.add("calls", m.world.calls)
         res.sim_units = m.world.k
         nsteps = (sc["stop"] - sc["start"] + 1) * spr
@@ -313,6 +335,16 @@ def execute(case):
                 if keys != want:
                     res.violate("C12.statistics-times", {"scenario": names[n], "got": keys[:6], "expected": want[:6]})
                 log.add("calls", n, m.world.calls)
+                # "agent statistics are recorded once for that time": what was recorded for a time is that scenario's own
+                # population at that time, whatever the other scenario threads were doing meanwhile (C13's oracle, under schedules)
+                from checks.c13 import check_stats
+                before_ = len(res.violations)
+                check_stats(res, m.statistics(), m.world.snaps)
+                for v in res.violations[before_:]:
+                    v.clause = "C12.statistics-recorded-" + v.clause.split("-", 1)[-1]
+                    v.detail["scenario"] = names[n]
+                if len(res.violations) > before_:
+                    break
                 # every event handled in a scenario was sent in that scenario, and at most once
                 sent = {u for (_, u, _, _) in m.world.sent}
                 seen = set()
